@@ -58,7 +58,11 @@ func (p *Path) String() string {
 	case "binop":
 		s = "(" + p.Args[0].String() + p.Name + p.Args[1].String() + ")"
 	case "unop":
-		s = p.Name + p.Args[0].String()
+		if p.Name == "next" {
+			s = "next(" + p.Args[0].String() + ")"
+		} else {
+			s = p.Name + p.Args[0].String()
+		}
 	case "index":
 		s = p.Args[0].String() + "[" + p.Args[1].String() + "]"
 	case "extract":
@@ -523,6 +527,27 @@ func (e *pathEnv) load(addr ssa.Value) *Path {
 		return p
 	case *ssa.Global:
 		return e.of(a)
+	case *ssa.FieldAddr:
+		// field of a local struct built by a composite literal: a single store to that field defines it
+		if al, ok := a.X.(*ssa.Alloc); ok && al.Parent() == e.fn {
+			if sts := e.allStores(al); len(sts) == 0 {
+				var val ssa.Value
+				n := 0
+				for _, b := range e.fn.Blocks {
+					for _, in := range b.Instrs {
+						if st, ok := in.(*ssa.Store); ok {
+							if fa, ok := st.Addr.(*ssa.FieldAddr); ok && fa.X == al && fa.Field == a.Field {
+								val = st.Val
+								n++
+							}
+						}
+					}
+				}
+				if n == 1 && val != nil {
+					return e.of(val)
+				}
+			}
+		}
 	}
 	return e.of(addr)
 }
